@@ -229,3 +229,10 @@ Proof.
     rewrite (rne_dec_complete f (lv_man v) (lv_exp v) (RFin k) W (lit_man_nonneg lit) Hw) by (rewrite Es; exact Hr).
     rewrite (bits_checked_complete f b k W Hb Hk). cbn [negb andb]. apply Z.eqb_eq. symmetry. exact Eb.
 Qed.
+
+Theorem checker_sound_rne : forall f num den res, wf_fmt f -> 0 <= num -> 0 < den ->
+  rne_frac f num den = res -> res <> RBad -> rounds_to_spec f (num * 2 ^ (- emin f)) den res.
+Proof. intros f num den res (A & B & C). apply rne_frac_sound; assumption. Qed.
+
+Theorem is_rne_unique' : forall f N D k1 k2, 2 <= prec f -> 0 < D -> is_rne f N D k1 -> is_rne f N D k2 -> k1 = k2.
+Proof. intros f N D k1 k2 H. apply is_rne_unique. exact H. Qed.
